@@ -123,6 +123,8 @@ class Engine:
         self.prescribed_hashes = None
         self.prescribe = set()    # names of modelled hashes whose model values are replayed natively
         self.concrete_default = False   # native mode: invent deterministic values for unnamed inputs
+        self.cross_check = 0      # number of discharged obligations to dump for a second solver
+        self.cross_dumps = []
         import os as _os
         self.fork_sites = {} if _os.environ.get('VERIF_FORK_SITES') else None
         self.split_depth = None   # frontier mode: stop every path at this many decisions
@@ -301,6 +303,13 @@ class Engine:
         r = self._check(neg)
         if r == z3.unsat:
             st.discharged += 1
+            if self.cross_check and len(self.cross_dumps) < self.cross_check:
+                # keep the query for re-decision by a second solver (vlib/runner.py)
+                try:
+                    self.cross_dumps.append('(set-logic ALL)\n' + self.solver.sexpr() +
+                                            f'\n(assert {neg.sexpr()})\n(check-sat)\n')
+                except Exception:   # noqa
+                    pass
             return True
         if r == z3.sat:
             raise Violation(label, self.model_inputs(self.model), detail)
